@@ -17,8 +17,8 @@ BASE = dict(
     NDataSet={2}, GPosSet={"first"}, RelWSet={"equal"}, HdrWSet={False}, UShapeSet={"scalar"}, DupSet={False},
 )
 # deviation flags: what the code under test does today / what the properties describe
-IMPL = dict(ReserveDefaultHeader=False, BudgetContinuation=False, ChargeRenderedOnly=False, BorderByPage=True)
-INTENDED = dict(ReserveDefaultHeader=True, BudgetContinuation=True, ChargeRenderedOnly=True, BorderByPage=True)
+IMPL = dict(ReserveDefaultHeader=False, BudgetContinuation=False, ChargeRenderedOnly=False, BorderByPage=True, TopOverrideByPosition=True)
+INTENDED = dict(ReserveDefaultHeader=True, BudgetContinuation=True, ChargeRenderedOnly=True, BorderByPage=True, TopOverrideByPosition=False)
 
 ALL_STRAT = {"plain", "pageby", "subline", "subpb"}
 PL3 = {"first", "last", "all"}
@@ -209,11 +209,12 @@ PROPS = {
         judge=["C07_DocTop", "C07_DocBottom", "C07_PageBottom", "C07_DataTop", "C07_DataTopModuloKnown", "C07_Interior"],
         known={"C07_DataTop": "C07_DataTopModuloKnown"},
         model=dict(quick=C(NSet={3}, Heights={1}, NrowSet={3, 7}, Strategies={"plain", "pageby"}, HdrSet={"none", "explicit"},
-                           FootSet=FS3, SrcSet=FS3, PlaceSet=PL3, **STY1),
+                           FootSet=FS3, SrcSet=FS3, PlaceSet=PL3, UShapeSet={"scalar", "col"}, **STY1),
                    thorough=C(NSet={4}, Heights={1}, NrowSet={3, 4, 7}, Strategies={"plain", "pageby"}, HdrSet={"none", "explicit"},
                               FootSet=FS3, SrcSet=FS3, PlaceSet=PL3, PFSet={"double"}, PLSet={"thick"}, BFSet={"dotted"}, BLSet={"dashed"},
                               UTSet={"", "wavy"}, UBSet={"", "triple"}),
-                   inv=["M_C07_DocTop", "M_C07_DocBottom", "M_C07_PageBottom", "M_C07_DataTop", "M_C07_Interior"]),
+                   inv=["M_C07_DocTop", "M_C07_DocBottom", "M_C07_PageBottom", "M_C07_DataTop", "M_C07_Interior"],
+                   inv_impl=["M_C07_DocTop", "M_C07_DocBottom", "M_C07_PageBottom", "M_C07_DataTopModuloKnown", "M_C07_Interior"]),
         gen=dict(
             quick=[dict(consts=C(NSet={3}, Heights={1}, NrowSet={3, 7}, Strategies={"plain", "pageby"}, HdrSet={"none", "explicit"},
                                  FootSet=FS3, SrcSet=FS3, PlaceSet=PL3, **STY1)),
